@@ -13,8 +13,8 @@ CONSTANTS
   MaxDepth = 1024
   ExpAge = 3
   CasAge = 3
-  OpsEnabled = {"new", "drop", "upgrade", "downgrade", "dropweak", "wclone", "wsnap", "wsupgrade", "counted", "pin", "collect"}
-  Scen = "weak"
+  OpsEnabled = {"new", "drop", "clone", "upgrade", "downgrade", "dropweak", "wclone", "wsnap", "wsupgrade", "counted", "load", "store", "swap", "snap", "pin", "collect"}
+  Scen = "chain"
   Fix = {"pin", "inc", "mark", "stamp", "wmany", "newmany0"}
   Mut = {}
   GenDepth = 90
